@@ -16,7 +16,7 @@ func init() {
 		ID:          "C14",
 		Title:       "Every set cursor enumerates its set exactly, in order, and seeks correctly",
 		Technique:   "static analysis: key-provenance dataflow (raw tagged key / nil-safe stripped / nil-unsafe stripped / derived) over every store to a cursor's position field, seek-argument tag rule, nil-guard rule for llrb nodes, forward/reverse constructor-primitive agreement table; complete decision table of the union cursor",
-		LevelText:   "Decides, for every cursor type in boltz and ast, structural necessary conditions of the contract: a typed cursor never exposes a storage type tag and never confuses a present element with exhaustion (position field provenance), Seek prepends the tag exactly when Current strips it, tree cursors never dereference an absent node, and forward/reverse variants use the matching bbolt primitives and are selected by the matching flag value. Exact enumeration on real buckets, bbolt's Seek semantics and llrb ordering are trusted, not decided. unionSetCursor.Next is decided over (first valid, second valid, compare result, direction): which element becomes current and which inputs advance. Added later: IterateIds hands out only the filtering scanner or, without a bucket, the empty cursor (IDCURSOR); a reverse cursor's Seek is decided for the three answers bbolt's Seek can give (past the end, later key, exact) and must step back in the first two and only there. Added in round 9: OpenSetCursor/OpenSetCursorForQuery hand out an object made by this very call (FRESHCURSOR). Added in round 10: a forward Seek is decided for bbolt's answers and must not move again; a reverse Seek stepping back through Next() needs Next() to step unconditionally; cursor families with the direction kept as a flag in a field are decided under the constructor's constant (DIRECTION); a function handing out a set cursor looks at its direction parameter (DIRPARAM). Added in round 11: ENTITYBUCKET as in C05 (related-entity cursors of child stores). Added in round 12: DIRPARAM also reads function literals.",
+		LevelText:   "Decides, for every cursor type in boltz and ast, structural necessary conditions of the contract: a typed cursor never exposes a storage type tag and never confuses a present element with exhaustion (position field provenance), Seek prepends the tag exactly when Current strips it, tree cursors never dereference an absent node, and forward/reverse variants use the matching bbolt primitives and are selected by the matching flag value. Exact enumeration on real buckets, bbolt's Seek semantics and llrb ordering are trusted, not decided. unionSetCursor.Next is decided over (first valid, second valid, compare result, direction): which element becomes current and which inputs advance. Added later: IterateIds hands out only the filtering scanner or, without a bucket, the empty cursor (IDCURSOR); a reverse cursor's Seek is decided for the three answers bbolt's Seek can give (past the end, later key, exact) and must step back in the first two and only there. Added in round 9: OpenSetCursor/OpenSetCursorForQuery hand out an object made by this very call (FRESHCURSOR). Added in round 10: a forward Seek is decided for bbolt's answers and must not move again; a reverse Seek stepping back through Next() needs Next() to step unconditionally; cursor families with the direction kept as a flag in a field are decided under the constructor's constant (DIRECTION); a function handing out a set cursor looks at its direction parameter (DIRPARAM). Added in round 11: ENTITYBUCKET as in C05 (related-entity cursors of child stores). Added in round 12: DIRPARAM also reads function literals. Added in round 13: BUCKETMEMO as in C13; the read side of an index reaches no bbolt write (READNOCREATE); IsValid compares the position with nil and the position is not the decoded value (VALIDNIL, VALIDSRC); NOTXSTATE as in C05; DIRPARAM is decided per handed-out cursor.",
 		LevelNote:   "Trusted: go/types, x/tools SSA, bbolt cursor semantics (keys non-empty, nil at end), llrb. Provenance depth is bounded (4 levels through fields/returns); anything deeper is reported as undecided, never assumed.",
 		DesignRef:   "DESIGN.md C14",
 		Explanation: "Sites: every named struct type in boltz/ast with Next/IsValid/Current methods; every store to its position field; every call of bbolt Cursor.Seek inside its Seek methods; every dereference of an llrb node pointer in ast; every function that chooses a cursor constructor by a boolean direction flag.",
